@@ -33,6 +33,12 @@ ChartExplained(r) ==
                                      /\ v[4] = Count(rs, ch, v[3])
             /\ \A ch \in charts : \A k \in Keys(ch) :
                   Count(rs, ch, k) > 0 => \E v \in Rng(r.vals) : v[1] = ch.p /\ v[2] = ch.c /\ v[3] = k
+            (* r.vals is in the order of the chart object: the data points of one *)
+            (* chart follow the documented total order of its keys                 *)
+            /\ \A i, j \in 1..Len(r.vals) :
+                  (i < j /\ r.vals[i][1] = r.vals[j][1] /\ r.vals[i][2] = r.vals[j][2]) =>
+                     \A ch \in charts : (ch.p = r.vals[i][1] /\ ch.c = r.vals[i][2]) =>
+                        Rank(ch, r.vals[i][3]) < Rank(ch, r.vals[j][3])
 
 Explained(r) == IF r.kind = "merge" THEN MergeExplained(r) ELSE ChartExplained(r)
 
